@@ -511,6 +511,8 @@ def op_loop_inv(s):
     return [("overlap-shape", shapes_eq(s.overlap.shape, s.input_probe.shape)),
             ("energy(overlap)=energy(input_probe)", cm.energy(s.overlap, g).t == cm.energy(s.input_probe, g).t),
             ("len(propagated_probes)=k+1", lift(cm.tl_len(pp)) == lift(s.k) + 1),
+            ("overlap=obj_patches[k]*propagated_probes[k]", ceq(s.overlap.fn(*g, lift(i0), lift(j0)),
+                                                                s.obj_patches.fn(lift(s.k), g[1], lift(i0), lift(j0)) * cm.tl_get(pp, lift(s.k), *g, lift(i0), lift(j0)))),
             ("propagated_probes[0]=input_probe", ceq(cm.tl_get(pp, 0, *g, lift(i0), lift(j0)), s.input_probe.fn(*g, lift(i0), lift(j0))))]
 
 
@@ -530,6 +532,7 @@ def op_ensures(s):
     return [("overlap-shape=(M,B,nr,nc)", shapes_eq(ov.shape, s.input_probe.shape)),
             ("propagated-shape=(S,M,B,nr,nc)", shapes_eq(pp.shape, (s.S,) + tuple(s.input_probe.shape))),
             ("propagated[0]=input_probe", ceq(pp.fn(z3.IntVal(0), *g, i, j), s.input_probe.fn(*g, i, j))),
+            ("overlap=obj_patches[S-1]*propagated[S-1]", ceq(ov.fn(*g, i, j), s.obj_patches.fn(lift(s.S) - 1, g[1], i, j) * pp.fn(lift(s.S) - 1, *g, i, j))),
             ("pure-phase: total intensity of the exit wave = total intensity of the probe (any number of slices)",
              cm.energy(ov, g).t == cm.energy(s.input_probe, g).t)]
 
@@ -985,8 +988,8 @@ ASSUMPTIONS = [
     "mixed-state (num_probes > 1) Fourier projection: exactness obligations are generated for 2 modes and FAIL (eps term, known findings); idempotence and >2 modes only bounded",
     "estimate_amplitudes / fourier_projection are verified for 1 and 2 probe modes (enumerated); every other contract is for symbolic mode, batch, slice counts and ROI sizes",
     "fourier_shift_expand is verified for arrays with 0 or 1 batch axes and expand_dim=True (torch and numpy); real input arrays are outside the property's quantifier and hit a known finding",
-    "overlap_projection: proved clauses are shapes, propagated_probes[0] = input and the energy invariant; the slice recursion itself "
-    "(propagated_probes[s] = propagate(obj[s-1]*propagated_probes[s-1])) is covered by the bounded stand-in only",
+    "overlap_projection: proved clauses are shapes, propagated_probes[0] = input, overlap = obj[S-1]*propagated[S-1] and the energy invariant; "
+    "WHICH propagator each step uses (propagated_probes[s] = propagate(obj[s-1]*propagated_probes[s-1], P[s-1])) is covered by the bounded stand-in only",
     "adjointness of scatter/gather, 'integer shift = roll', the detector/multislice energy chain across functions rest on the trusted finite-sum / DFT steps listed in TRUSTED",
 ]
 EXPLANATION = ("VCs from the real source of 14 functions (phase ramps, propagators, scatter/gather, propagation, multislice loop with an energy loop invariant, "
